@@ -148,6 +148,37 @@ func runOne(id, tier, repo, verif string) (status int) {
 			}
 		}()
 		f(c, w)
+		if c.hasAlarms() {
+			// normalisation fallback (inline.go): helpers that are new relative to known_funcs.txt are inlined into an
+			// in-memory copy and the same rules are applied to that copy
+			if ir := inlineNewHelpers(repo); ir.Overlay != nil {
+				c2 := newCtx(id, tier, repo, verif)
+				c2.Seed = c.Seed
+				if err := c2.loadKnown(filepath.Join(verif, "KNOWN_FINDINGS.txt")); err == nil {
+					w2 := &World{c: c2, repo: repo, all: tier == "thorough", overlay: ir.Overlay}
+					resetGlobals()
+					f(c2, w2)
+					if !c2.hasAlarms() && len(c2.Obs) > 0 {
+						c2.Extra["normalised"] = map[string]interface{}{
+							"explanation": "the check did not pass on the sources as written; it passes on an in-memory copy in which calls of helpers that are new relative to known_funcs.txt are replaced by the helpers' bodies (behaviour-preserving code motion, see inline.go); the obligations below are those of the copy",
+							"inlined":     ir.Inlined,
+						}
+						fmt.Printf("NOTE: %s passes after inlining new helpers %v\n", id, ir.Inlined)
+						c, w = c2, w2
+					} else {
+						resetGlobals()
+						c.Extra["normalised"] = map[string]interface{}{"attempted": ir.Inlined, "result": "the copy with new helpers inlined does not pass either; reporting the result on the sources as written"}
+						// re-establish the caches of the first world for the thorough extras
+						if tier == "thorough" {
+							c = newCtx(id, tier, repo, verif)
+							c.loadKnown(filepath.Join(verif, "KNOWN_FINDINGS.txt"))
+							w = &World{c: c, repo: repo, all: true}
+							f(c, w)
+						}
+					}
+				}
+			}
+		}
 		if tier == "thorough" {
 			thoroughExtras(c, w)
 		}
